@@ -12,7 +12,7 @@ import Mfi.Driver.TxD
 import Mfi.Driver.RiskD
 open Mfi.Driver
 
-def handlers : List (String → List Int → Option String) := [fxOp, panicOp, irOp, igOp, bankOp, tokOp, gateOp, authOp, adminOp, acctOp, txOp, riskOp]
+def handlers : List (String → List Int → Option String) := [fxOp, panicOp, irOp, igOp, bankOp, tokOp, gateOp, authOp, adminOp, acctOp, txOp, riskOp, liqOp]
 
 def stepLine (line : String) : String :=
   match line.trimAscii.toString.splitOn " " with
